@@ -1186,7 +1186,7 @@ func (z *Decimal) setBits64(neg bool, x uint64, exp int64) *Decimal {
 	// x != 0
 	z.form = finite
 	z.mant = z.mant.setUint64(x)
-	z.setExpAndRound(exp+int64(len(z.mant))*_DW-dnorm(z.mant), 0)
+	z.setExpAndRound(limitExp(exp)+int64(len(z.mant))*_DW-dnorm(z.mant), 0)
 	return z
 }
 
@@ -1201,6 +1201,20 @@ func (z *Decimal) SetInt64(x int64) *Decimal {
 	// We cannot simply call z.SetUint64(uint64(u)) and change
 	// the sign afterwards because the sign affects rounding.
 	return z.setBits64(x < 0, uint64(u), 0)
+}
+
+// limitExp clamps an exponent supplied by a caller so that adding
+// mantissa-length corrections to it cannot overflow an int64. Exponents that
+// large are out of range either way, and stay so after clamping.
+func limitExp(exp int64) int64 {
+	const lim = 1 << 62
+	if exp > lim {
+		return lim
+	}
+	if exp < -lim {
+		return -lim
+	}
+	return exp
 }
 
 func (z *Decimal) setExpAndRound(exp int64, sbit uint) {
@@ -1247,7 +1261,7 @@ func (z *Decimal) SetMantExp(mant *Decimal, exp int) *Decimal {
 	if z.form != finite {
 		return z
 	}
-	z.setExpAndRound(int64(z.exp)+int64(exp), 0)
+	z.setExpAndRound(int64(z.exp)+limitExp(int64(exp)), 0)
 	return z
 }
 
@@ -1700,7 +1714,7 @@ func (z *Decimal) SetBitsExp(mant []Word, exp int64) *Decimal {
 		z.prec = umax32(uint32(digits), DefaultDecimalPrec)
 	}
 	if len(z.mant) > 0 {
-		z.setExpAndRound(exp-dnorm(z.mant)-int64(len(mant)-len(z.mant))*_DW, 0)
+		z.setExpAndRound(limitExp(exp)-dnorm(z.mant)-int64(len(mant)-len(z.mant))*_DW, 0)
 	} else {
 		z.acc = Exact
 		z.form = zero
